@@ -352,6 +352,85 @@ def check_w4(chk, m, fn, wh, fmt_arg, states):
                "fields modified besides the three size fields: %s" % extra, fs.loc, fs.name)
 
 
+def check_w7(chk, m):
+    """W7: the RIFF-size test of rf_wavheader_validate and rf_wavheader_decode accepts exactly the headers with
+    chunk_size >= 12 + fmt_chunk_size + fact_chunk_size, decided for all 32-bit chunk sizes (so also for files of 2 to 4 GiB)
+    and all fmt / fact chunk sizes below 2^17 (no wrap of the right-hand side), as a Boolean function over ROBDD bit-vectors."""
+    from ..domains.bdd import BDD, BV
+    from ..domains.bvexec import expr_bv, Top
+    for fname in ("rf_wavheader_validate", "rf_wavheader_decode"):
+        if not m.has_fn(fname):
+            continue
+        fn = m.fn(fname)
+        wh = wav.wh_index(fn)
+        B = BDD()
+        bv = BV(B)
+        V = {"chunk_size": [B.var(3 * i) for i in range(32)], "fmt_chunk_size": [B.var(3 * i + 1) for i in range(32)],
+             "fact_chunk_size": [B.var(3 * i + 2) for i in range(32)]}
+        ps = [p for p in paths.enumerate_paths(fn, m, call_effects=wav.EFFECTS) if not paths.is_assert_fail_path(p)]
+        res2field = {}
+        for p in ps:
+            for e in p.events:
+                if e.kind == "store" and e.ptr is not None:
+                    f = wav.field_name(e.ptr, fn, m, wh)
+                    v = strip_casts(e.val)
+                    if f and v[0] == "call":
+                        res2field[v] = f
+
+        def atom(x):
+            if x[0] == "ld":
+                f = wav.field_name(x[1], fn, m, wh)
+                if f in V:
+                    return V[f]
+            if x in res2field and res2field[x] in V:
+                return V[res2field[x]]
+            return None
+
+        def mentions_size(c):
+            return paths.contains(c, lambda x: (x[0] == "ld" and wav.field_name(x[1], fn, m, wh) == "chunk_size") or
+                                  (x in res2field and res2field[x] == "chunk_size"))
+        accept = 0
+        n_ok = 0
+        try:
+            for p in ps:
+                r = p.ret
+                success = r is not None and not (r[0] == "c" and (r[2] >> 31) & 1 and r[1] == 32)   # not a negative errno
+                if fname == "rf_wavheader_validate":
+                    success = r is not None and r[0] == "c" and r[2] == 0
+                if not success:
+                    continue
+                n_ok += 1
+                pc = 1
+                for c, taken, inst in p.conds:
+                    if not mentions_size(c):
+                        continue
+                    v = expr_bv(c, bv, atom)
+                    bit = 0
+                    for x in v:
+                        bit = B.OR(bit, x)
+                    pc = B.AND(pc, bit if taken else B.NOT(bit))
+                accept = B.OR(accept, pc)
+        except (Top, KeyError, IndexError, TypeError) as t:
+            chk.unknown("W7.size-predicate", fname, "size test outside the bit-vector fragment: %s" % t, fn.loc)
+            continue
+        if not n_ok:
+            chk.unknown("W7.size-predicate", fname, "no successful path found", fn.loc)
+            continue
+        small = B.AND(bv.ult(V["fmt_chunk_size"], bv.const(1 << 17, 32)), bv.ult(V["fact_chunk_size"], bv.const(1 << 17, 32)))
+        need = bv.add(bv.add(V["fmt_chunk_size"], V["fact_chunk_size"]), bv.const(12, 32))
+        want = B.NOT(bv.ult(V["chunk_size"], need))
+        bad = B.AND(small, B.XOR(accept, want))
+
+        def show(f):
+            a = B.sat_one(f) or {}
+            g = lambda k: sum((1 << i) for i in range(32) if a.get(3 * i + k))
+            return "chunk_size=%d fmt_chunk_size=%d fact_chunk_size=%d" % (g(0), g(1), g(2))
+        chk.ob("W7.size-predicate", fname, bad == 0,
+               "accepts exactly chunk_size >= 12 + fmt_chunk_size + fact_chunk_size for every 32-bit chunk size" if bad == 0 else
+               "the size test disagrees with chunk_size >= 12 + fmt_chunk_size + fact_chunk_size for %s (%s)" %
+               (show(bad), "rejected although large enough" if B.AND(bad, want) != 0 else "accepted although too small"), fn.loc, fname)
+
+
 def check_w5(chk, m, states):
     fv = m.fn("rf_wavheader_validate")
     chk.note_fn(fv)
@@ -506,6 +585,7 @@ def run(chk):
     chk.rule("W4", "block_align = bps*ch, byte_rate = sfreq*bps*ch, bits_per_sample = 8*bps, audio_format by format; set_num_frames: data = frames*block_align, sample_length = frames*channels, chunk_size keeps its header part")
     chk.rule("W6", "every field that init / set_num_frames can make non-zero is transferred by the encoder case of that format (otherwise encode->decode is not the identity)")
     chk.rule("pack", "C12's transfer rules P1-P5 on pack.c (single advance, exact fits guard, in-item accesses, zero/NULL handling, byte order)")
+    chk.rule("W7", "validate / decode accept exactly chunk_size >= 12 + fmt_chunk_size + fact_chunk_size, for all 32-bit chunk sizes (BDD)")
     chk.rule("W5", "rf_wavheader_validate returns 0 on the abstract post-state of rf_wavheader_init, independent of stale memory")
     chk.assumptions += [
         "rf_(un)pack_* behave as C12 establishes (widths and byte order taken from the callee's name)",
@@ -521,6 +601,7 @@ def run(chk):
     check_w4(chk, m, fn, wh, fmt_arg, states)
     check_w5(chk, m, states)
     check_w6(chk, m, states, E)
+    check_w7(chk, m)
     # the round trip rests on the cursor functions transferring every item that fits, whole and in the stated byte order,
     # and nothing else (C12's rules on pack.c)
     from . import C12
